@@ -174,6 +174,10 @@ package lru
 // single flight: a creating invocation registered a channel of its own where nobody was registered, found its registration intact,
 // and tears exactly it down in its last critical section, closing the channel (waiters are released)
 //@   ensures [C09] singleflight: !atLock(has(p.items.vals, keyOf(p.mapToInnerKeyF, pk))) ==> !atLock(has(p.inflight, keyOf(p.mapToInnerKeyF, pk)), 1) && mine(atUnlock(p.inflight[keyOf(p.mapToInnerKeyF, pk)], 1)) && atLock(p.inflight[keyOf(p.mapToInnerKeyF, pk)]) == atUnlock(p.inflight[keyOf(p.mapToInnerKeyF, pk)], 1) && closed(atUnlock(p.inflight[keyOf(p.mapToInnerKeyF, pk)], 1)) && !has(p.inflight, keyOf(p.mapToInnerKeyF, pk))
+// the critical section in which a creating invocation registers itself changes neither the items (keys, values, recency)
+// nor the delete log: nothing is evicted "to make room" before the creation has succeeded
+//@   ensures [C09] registering: !atLock(has(p.items.vals, keyOf(p.mapToInnerKeyF, pk))) ==> forall(j, K, atLock(has(p.items.vals, j), 1) == atUnlock(has(p.items.vals, j), 1) && (atLock(has(p.items.vals, j), 1) ==> atLock(p.items.aval(j), 1) == atUnlock(p.items.aval(j), 1) && atLock(p.items.aord(j), 1) == atUnlock(p.items.aord(j), 1)))
+//@   ensures [C09] registering: !atLock(has(p.items.vals, keyOf(p.mapToInnerKeyF, pk))) && p.onDeleteF != nil ==> atLock(p.onDeleteF.dlen, 1) == atUnlock(p.onDeleteF.dlen, 1)
 // failed creation leaves the items as found
 //@   ensures [C09] failed: !atLock(has(p.items.vals, keyOf(p.mapToInnerKeyF, pk))) && r1 != nil ==> sinceLock(p.allKept() && (p.onDeleteF != nil ==> p.logKept()))
 // successful creation: inserted as most recent, nothing leaked; below capacity nothing leaves; at capacity exactly the least recently used entry leaves and is logged once
